@@ -79,7 +79,16 @@ func runC14(res *Result, d *Driver, tier string, seed uint64) {
 			env.runProbe(RunSpec{Script: "touch /w/target;" + strings.Join(plant, ";") + ";exit 0"}, false)
 		}
 		t0 := time.Now()
-		rs, err := env.Open(cmds)
+		var rs []container.OpenCmdResult
+		var err error
+		opened := make(chan struct{})
+		go func() { rs, err = env.Open(cmds); close(opened) }()
+		select {
+		case <-opened:
+		case <-time.After(5 * time.Second):
+			res.Mismatch(Mismatch{Kind: "oracle", What: "Open blocks (on a planted FIFO/socket/device?) (C14)", Input: fmt.Sprintf("batch %v", want), Impl: "no answer within 5 s; the environment is abandoned", Oracle: "violates"})
+			return
+		}
 		el := time.Since(t0)
 		key := fmt.Sprintf("batch %v", want)
 		nOk := 0
